@@ -123,9 +123,7 @@ func (s *Solver) retryAlt() Result {
 	return RUnknown
 }
 
-
 var slowN int
-
 
 // Reset starts a fresh context for a new run.
 func (s *Solver) Reset() {
